@@ -27,8 +27,9 @@ class KEv(Interval):
 
 @dataclass(frozen=True, kw_only=True)
 class KEv2(Interval):
-    """compound key (cal, uid)"""
-    cal: str
+    """compound key (cal, uid); one component may be None for every event (an iCalendar
+    RECURRENCE-ID of ordinary events): the keys are still unique"""
+    cal: str | None
     uid: int
     ver: int = 0
     recurring_event_id: str | None = None
@@ -65,7 +66,7 @@ class VersionedSource:
             if self.masked:
                 out.append(Interval(start=s, end=e))
             elif self.compound:
-                out.append(KEv2(start=s, end=e, cal="c", uid=key, ver=self.ver,
+                out.append(KEv2(start=s, end=e, cal=(None if self.compound == "none" else "c"), uid=key, ver=self.ver,
                                 recurring_event_id=f"series-{key}" if key % 2 else None))
             else:
                 out.append(KEv(start=s, end=e, id=key, ver=self.ver,
@@ -208,7 +209,7 @@ class CacheFamily(Family):
             if not any(o[0] == "q" for o in ops):
                 ops.append(["q", 0, 10, False])
             yield dict(masked=masked, ttl=ttl, tick=tick, t0=rng.choice([0, 100]), evs=evs, ops=ops,
-                       compound=(rng.random() < 0.2 and not masked))
+                       compound=((rng.choice([True, "none"]) if rng.random() < 0.25 else False) if not masked else False))
 
     def run_impl(self, case):
         return run_history(case)
